@@ -44,6 +44,7 @@ type c15Farm struct {
 	replayed   int64
 	steps      int64
 	diverged   int64
+	probe      chan c15Variant
 	divSamples []string
 	problems   map[string]int
 	actions    map[string]int64
@@ -57,7 +58,7 @@ type c15Farm struct {
 }
 
 func newC15Farm(c *vf.Ctx, n int) (*c15Farm, error) {
-	f := &c15Farm{c: c, raw: map[int][]byte{}, tag: map[int]string{}, seen: map[uint64]bool{}, problems: map[string]int{},
+	f := &c15Farm{c: c, probe: make(chan c15Variant, 1), raw: map[int][]byte{}, tag: map[int]string{}, seen: map[uint64]bool{}, problems: map[string]int{},
 		actions: map[string]int64{}, routes: map[string]int64{}, anoms: map[string]int64{},
 		sigCount: map[string]int{}, sigBest: map[string]map[string]any{}, sigLen: map[string]int{}, byTag: map[string]int64{}, sampled: map[string]bool{}}
 	for i := 0; i < n; i++ {
@@ -98,7 +99,12 @@ func (f *c15Farm) read(w *c15Worker, out io.Reader) {
 			w.mu.Unlock()
 		} else if bytes.HasPrefix(line, []byte("@@")) {
 			var r c15Result
-			if jerr := json.Unmarshal(bytes.TrimSpace(line[2:]), &r); jerr == nil {
+			if jerr := json.Unmarshal(bytes.TrimSpace(line[2:]), &r); jerr == nil && r.Probe != nil {
+				select {
+				case f.probe <- *r.Probe:
+				default:
+				}
+			} else if jerr == nil {
 				w.mu.Lock()
 				delete(w.inflight, r.I)
 				w.current = -1
@@ -318,13 +324,13 @@ func (b c15Bounds) String() string {
 	return fmt.Sprintf("keys=2 conns=%d puts=%d env=%d takes=%d afterClose=%v caps={-1,0,1,2}^2 exp={on,off}", b.nconns, b.puts, b.env, b.takes, b.afterClose)
 }
 
-const c15Invs = "TypeOK Consistent Safe TakeOK NoEndlessLoop"
+const c15Invs = "TypeOK Consistent Safe FixedClean TakeOK NoEndlessLoop"
 
-func c15Cfg(b c15Bounds, hist bool, view bool) (string, string, string) {
+func c15Cfg(b c15Bounds, v c15Variant, hist bool, view bool) (string, string, string) {
 	name, mod, consts := vf.MCModule("Pool", map[string]string{"Caps": "{-1,0,1,2}", "KeyCaps": "{-1,0,1,2}"},
 		map[string]string{"Keys": "{1,2}", "NConns": fmt.Sprint(b.nconns), "MaxPuts": fmt.Sprint(b.puts), "MaxEnv": fmt.Sprint(b.env),
 			"MaxTakes": fmt.Sprint(b.takes), "Exps": "{TRUE,FALSE}", "AfterClose": strings.ToUpper(fmt.Sprint(b.afterClose)),
-			"Hist": strings.ToUpper(fmt.Sprint(hist))})
+			"Hist": strings.ToUpper(fmt.Sprint(hist)), "FixUnlink": strings.ToUpper(fmt.Sprint(v.UnlinkOnce)), "FixOwnList": strings.ToUpper(fmt.Sprint(v.OwnList))})
 	cfg := "SPECIFICATION Spec\n" + consts + "INVARIANTS " + c15Invs
 	if hist {
 		cfg += " EmitTerminal"
@@ -350,6 +356,28 @@ func C15(c *vf.Ctx) {
 		return
 	}
 
+	// which variant of the algorithm does the tree implement (the specification has a constant for each)
+	var variant c15Variant
+	{
+		w := farm.workers[0]
+		w.mu.Lock()
+		w.in.WriteString("{\"probe\":true}\n")
+		w.in.Flush()
+		w.mu.Unlock()
+		select {
+		case variant = <-farm.probe:
+		case <-time.After(60 * time.Second):
+			c.Inconclusive("the probe of the algorithm variant did not answer")
+			farm.drain()
+			return
+		case <-w.done:
+			c.Inconclusive("the replay worker died during the probe: %s", w.stderr.String())
+			farm.drain()
+			return
+		}
+		c.Cov["algorithm_variant_of_the_tree"] = variant
+	}
+
 	var wg sync.WaitGroup
 	var covMu sync.Mutex
 	runs := []string{}
@@ -357,7 +385,7 @@ func C15(c *vf.Ctx) {
 		wg.Add(1)
 		go func() {
 			defer wg.Done()
-			name, mod, cfg := c15Cfg(b, hist, view)
+			name, mod, cfg := c15Cfg(b, variant, hist, view)
 			o := vf.TLCOpts{Module: name, Cfg: cfg, Extra: map[string]string{name + ".tla": mod}, Timeout: 25 * time.Minute, HeapMB: 6000,
 				NoDeadlck: true, Workers: workers, Simulate: sim, Seed: c.Seed}
 			if sim != "" {
@@ -396,7 +424,7 @@ func C15(c *vf.Ctx) {
 		run("design", c15Bounds{3, 3, 1, 1, false}, false, true, "", 6, true)
 		run("terminal-states", c15Bounds{3, 3, 0, 1, false}, true, true, "", 4, true)
 		run("simulation", c15Bounds{3, 4, 2, 2, false}, true, false, "num=1500", 2, true)
-		run("after-close", c15Bounds{3, 3, 0, 1, true}, true, true, "", 4, true)
+		run("after-close", c15Bounds{3, 3, 0, 0, true}, true, true, "", 4, true)
 	} else {
 		run("design", c15Bounds{4, 4, 1, 2, false}, false, true, "", 8, true)
 		wg.Wait()
